@@ -106,9 +106,15 @@ func (qs *QueryStore) RebuildIndexes() error {
 		it := txn.NewIterator(badger.DefaultIteratorOptions)
 		defer it.Close()
 		prefix := []byte(qs.st.prefix)
+		initKey := []byte(`$` + qs.st.prefix + `init`)
 		for it.Seek(prefix); it.ValidForPrefix(prefix); it.Next() {
 			// Load item and unmarshal it
 			item := it.Item()
+			// The init flag key of the store is not a value. It is found
+			// among the values when the store has no prefix.
+			if bytes.Equal(item.Key(), initKey) {
+				continue
+			}
 			v := reflect.New(t)
 			err := item.Value(func(dta []byte) error {
 				return json.Unmarshal(dta, v.Interface())
